@@ -1,47 +1,7 @@
 (* Driver for the extracted model: reads one case per line (tab separated), prints one result
    per line. Integers cross the boundary in decimal, text as comma separated code points,
    bytes as hex; "-" is the empty text / byte string. *)
-open Sakura_model
 
-exception Bad of string
-
-(* ---- conversions between OCaml ints and the extracted binary integers ---- *)
-let rec pos_of_int (n : int) : positive =
-  if n = 1 then XH else if n land 1 = 0 then XO (pos_of_int (n lsr 1)) else XI (pos_of_int (n lsr 1))
-let z_of_int (n : int) : z = if n = 0 then Z0 else if n > 0 then Zpos (pos_of_int n) else Zneg (pos_of_int (- n))
-let rec int_of_pos (p : positive) : int =
-  match p with
-  | XH -> 1
-  | XO q -> let r = int_of_pos q in if r >= (1 lsl 61) then raise (Bad "BIG") else 2 * r
-  | XI q -> let r = int_of_pos q in if r >= (1 lsl 61) then raise (Bad "BIG") else 2 * r + 1
-let int_of_z (v : z) : int = match v with Z0 -> 0 | Zpos p -> int_of_pos p | Zneg p -> - (int_of_pos p)
-let rec nat_of_int (n : int) : nat = if n <= 0 then O else S (nat_of_int (n - 1))
-let rec int_of_nat (n : nat) : int = match n with O -> 0 | S m -> 1 + int_of_nat m
-
-(* decimal strings of any size *)
-let z_of_string (s : string) : z =
-  let neg = String.length s > 0 && s.[0] = '-' in
-  let ten = z_of_int 10 in
-  let acc = ref Z0 in
-  String.iteri (fun i c ->
-    if i = 0 && c = '-' then () else
-    if c < '0' || c > '9' then raise (Bad ("int:" ^ s)) else
-    acc := Z.add (Z.mul !acc ten) (z_of_int (Char.code c - 48))) s;
-  if neg then Z.opp !acc else !acc
-let string_of_z (v : z) : string = try string_of_int (int_of_z v) with Bad _ -> "BIG"
-
-let split_on c s = if s = "" then [] else String.split_on_char c s
-let text_of_field (f : string) : z list = if f = "-" then [] else List.map z_of_string (split_on ',' f)
-let field_of_text (t : z list) : string = if t = [] then "-" else String.concat "," (List.map string_of_z t)
-let bytes_of_field (f : string) : z list =
-  if f = "-" then [] else
-  let n = String.length f / 2 in
-  List.init n (fun i -> z_of_int (int_of_string ("0x" ^ String.sub f (2 * i) 2)))
-let field_of_bytes (b : z list) : string =
-  if b = [] then "-" else String.concat "" (List.map (fun v -> Printf.sprintf "%02x" ((int_of_z v) land 255)) b)
-let bool_of_field f = (f = "1")
-let ints_of_field (f : string) : z list = if f = "-" then [] else List.map z_of_string (split_on ',' f)
-let field_of_ints (t : z list) : string = if t = [] then "-" else String.concat "," (List.map string_of_z t)
 
 (* ---- C04: length expressions. atom = step:neg:digits:dots ; parts prefixed by ^ or + ---- *)
 let atom_of_field (f : string) : atom =
@@ -129,20 +89,3 @@ let dispatch (fields : string list) : string =
   | k :: _ -> "UNKNOWN-KIND:" ^ k
   | [] -> "EMPTY"
 
-let () =
-  let inp = open_in Sys.argv.(1) in
-  let out = open_out Sys.argv.(2) in
-  (try
-    while true do
-      let line = input_line inp in
-      let fields = String.split_on_char '\t' line in
-      let r = (try dispatch fields with
-               | Bad m -> "BAD:" ^ m
-               | Stack_overflow -> "STACKOVERFLOW"
-               | Not_found -> "BAD:notfound"
-               | Failure m -> "BAD:" ^ m
-               | Invalid_argument m -> "BAD:" ^ m) in
-      output_string out r; output_char out '\n'
-    done
-  with End_of_file -> ());
-  close_out out
